@@ -39,6 +39,8 @@ class FreshRhs:
         self.autonomous = autonomous
         self.const = const
         self.nan_at = None      # value fault: the call with this index returns NaN (no exception)
+        self.reuse_buffer = False   # the rhs writes every result into ONE preallocated array and returns that same object each time
+        self._buf = None
 
     def __call__(self, t, y, **kw):
         c = self.c
@@ -63,6 +65,13 @@ class FreshRhs:
             args += [kw[k] for k in sorted(kw)]          # the equation's parameters (OdeSystem.constants) are arguments of f
             outs = c.uf(self.name, args, self.n, fresh=(self.mode == "fresh"))
         val = c.array(outs).reshape(self.shape) if self.shape else outs[0]
+        if self.reuse_buffer and self.shape:
+            self.values.append(val.copy())
+            if self._buf is None:
+                self._buf = val.copy()
+            self._buf[...] = val
+            self.completed += 1
+            return self._buf
         self.values.append(val)
         self.completed += 1
         return val
